@@ -6,7 +6,7 @@ use crate::contracts::tokens::{TokAllow, TokBase, TokBlock, TokVotes};
 use crate::examples;
 use crate::obs::{self, Ev};
 use crate::rng::Rng;
-use crate::world::{invoke, Fail, Inv, World};
+use crate::world::{invoke, Fail, Inv, Must, World};
 use soroban_sdk::{Address, Env, String as SString, Symbol, Val, Vec as SVec};
 use std::collections::BTreeMap;
 
@@ -319,6 +319,31 @@ pub struct Token<'a> {
     pub fl: Flavour,
     /// universe; by convention u[0] = owner/admin of the examples, u[1] = manager
     pub u: Vec<Address>,
+    /// when set and the recipient of a `transfer` is a classic account (G...), the call names it
+    /// as a multiplexed address with this id
+    pub mux_to: std::cell::Cell<Option<u64>>,
+}
+
+/// A classic (ed25519) account address; only usable where authorizations are mocked.
+pub fn g_account(e: &Env, seed: u8) -> Address {
+    use soroban_sdk::xdr::{AccountId, PublicKey, ScAddress, ScVal, Uint256};
+    use soroban_sdk::TryFromVal;
+    let sc = ScVal::Address(ScAddress::Account(AccountId(PublicKey::PublicKeyTypeEd25519(Uint256([seed; 32])))));
+    Address::try_from_val(e, &sc).expect("account address")
+}
+
+/// The multiplexed form (M...) of a classic account address; None for contract addresses.
+pub fn muxed_val(e: &Env, a: &Address, id: u64) -> Option<Val> {
+    use soroban_sdk::xdr::{AccountId, MuxedEd25519Account, PublicKey, ScAddress, ScVal};
+    use soroban_sdk::TryFromVal;
+    let sc: ScAddress = a.try_into().ok()?;
+    match sc {
+        ScAddress::Account(AccountId(PublicKey::PublicKeyTypeEd25519(k))) => {
+            let m = ScVal::Address(ScAddress::MuxedAccount(MuxedEd25519Account { id, ed25519: k }));
+            Val::try_from_val(e, &m).ok()
+        }
+        _ => None,
+    }
 }
 
 pub const OWNER: usize = 0;
@@ -327,8 +352,16 @@ pub const MANAGER: usize = 1;
 impl<'a> Token<'a> {
     /// Deploys flavour `fl`. Returns the token and the constructor's events (genesis of the log).
     pub fn deploy(w: &'a World, fl: Flavour, n: usize, initial: i128) -> (Token<'a>, Vec<Ev>) {
+        Self::deploy_with(w, fl, n, initial, false)
+    }
+    /// `g_last`: the last address of the universe is a classic account (so that it can be named as a
+    /// multiplexed recipient); only for workloads that mock authorizations.
+    pub fn deploy_with(w: &'a World, fl: Flavour, n: usize, initial: i128, g_last: bool) -> (Token<'a>, Vec<Ev>) {
         let e = &w.env;
-        let u = w.accounts(n);
+        let mut u = w.accounts(n);
+        if g_last {
+            u[n - 1] = g_account(e, 0x5A);
+        }
         let name = SString::from_str(e, "T");
         let sym = SString::from_str(e, "T");
         e.mock_all_auths();
@@ -356,7 +389,7 @@ impl<'a> Token<'a> {
             }
         };
         let evs = obs::events(e).into_iter().filter(|x| x.contract == addr).collect();
-        (Token { w, addr, fl, u }, evs)
+        (Token { w, addr, fl, u, mux_to: std::cell::Cell::new(None) }, evs)
     }
     /// Did the constructor mint `initial` to the owner?
     pub fn ctor_mints(fl: Flavour) -> bool {
@@ -370,7 +403,10 @@ impl<'a> Token<'a> {
         let u = &self.u;
         match op {
             Op::Mint { to, a } => ("mint", args!(e, u[*to], *a)),
-            Op::Transfer { from, to, a } => ("transfer", args!(e, u[*from], u[*to], *a)),
+            Op::Transfer { from, to, a } => match self.mux_to.get().and_then(|id| muxed_val(e, &u[*to], id)) {
+                Some(m) => ("transfer", args!(e, u[*from], m, *a)),
+                None => ("transfer", args!(e, u[*from], u[*to], *a)),
+            },
             Op::TransferFrom { sp, from, to, a } => ("transfer_from", args!(e, u[*sp], u[*from], u[*to], *a)),
             Op::Approve { owner, sp, a, l } => ("approve", args!(e, u[*owner], u[*sp], *a, *l)),
             Op::Burn { from, a } => ("burn", args!(e, u[*from], *a)),
@@ -414,15 +450,15 @@ impl<'a> Token<'a> {
     }
     pub fn balance(&self, i: usize) -> i128 {
         let e = self.env();
-        invoke::<i128>(e, &self.addr, "balance", args!(e, self.u[i])).expect("balance getter")
+        invoke::<i128>(e, &self.addr, "balance", args!(e, self.u[i])).must("balance")
     }
     pub fn supply(&self) -> i128 {
         let e = self.env();
-        invoke::<i128>(e, &self.addr, "total_supply", args!(e)).expect("total_supply getter")
+        invoke::<i128>(e, &self.addr, "total_supply", args!(e)).must("total_supply")
     }
     pub fn allowance(&self, o: usize, s: usize) -> i128 {
         let e = self.env();
-        invoke::<i128>(e, &self.addr, "allowance", args!(e, self.u[o], self.u[s])).expect("allowance getter")
+        invoke::<i128>(e, &self.addr, "allowance", args!(e, self.u[o], self.u[s])).must("allowance")
     }
     /// Every observable of the token over the whole universe.
     pub fn observe(&self) -> FState {
